@@ -5,7 +5,7 @@ moved into a helper.  `helpers(prog, keep)` inlines every crate-local function o
 itself names (`keep`: path suffixes), closures, public API functions (stable anchors) and large bodies."""
 
 
-def helpers(prog, keep=(), max_blocks=48, private_only=True):
+def helpers(prog, keep=(), max_blocks=120, private_only=True):
     idx = {}
     for b in prog.lib_bodies():
         if b.kind in ("Fn", "AssocFn"):
